@@ -88,9 +88,9 @@ def build(run):
     tmo = 20000
     MESHES = {"tri2d": (mesh("triangle", 2), 2, 2), "tri3d": (mesh("triangle", 3), 2, 3)}
 
-    def mkworld(tdim, gdim):
+    def mkworld(tdim, gdim, cplx=False):
         def mk(symbolic, valuation):
-            w = World(symbolic=symbolic, complex_mode=False, valuation=valuation)
+            w = World(symbolic=symbolic, complex_mode=cplx, valuation=valuation)
             w.terminal_hook = geo_hook(tdim, gdim)
             return w
         return mk
@@ -115,7 +115,7 @@ def build(run):
             except Exception as ex:  # noqa: BLE001
                 return violated(f"{tag}: pass crashed with {type(ex).__name__}: {ex}", replay={"expr": str(e)[:600], "repr": repr(e)[:3000]},
                                 reproduced=True, backend="exec")
-            return check_same(mkworld(t, g), r, lambda w, c, env: den(w, e, c, env), e.ufl_shape, e.ufl_free_indices,
+            return check_same(mkworld(t, g, cplx=name.split("/")[-1].startswith("COMPLEX")), r, lambda w, c, env: den(w, e, c, env), e.ufl_shape, e.ufl_free_indices,
                               e.ufl_index_dimensions, timeout_ms=tmo, what=tag)
         run.add(tag, thunk, kind="values")
 
@@ -159,6 +159,18 @@ def build(run):
         yield "SHADOW two deltas: I_jk sum_j(I_ck h_j f_j)", lambda m, t, g: S(C.Product(X(C.Identity(t), j, k), S(C.Product(C.Product(X(C.Identity(t), c_i, k), U("h", (t,), j)), U("f", (t,), j)), j)), k)
         yield "SHADOW two deltas: sum_j(I_ck h_j f_j) I_jk (operand order)", lambda m, t, g: S(C.Product(S(C.Product(C.Product(X(C.Identity(t), c_i, k), U("h", (t,), j)), U("f", (t,), j)), j), X(C.Identity(t), j, k)), k)
         yield "SHADOW two deltas and a third factor: I_jk u_k sum_j(I_ck h_j)", lambda m, t, g: S(C.Product(C.Product(X(C.Identity(t), j, k), U("u", (t,), k)), S(C.Product(X(C.Identity(t), c_i, k), U("h", (t,), j)), j)), k)
+        # complex values with conjugations next to what cancels (sesquilinear forms: inner(a, b) = a conj(b)); the geometry is real, the fields are not
+        yield "COMPLEX conj(p) detJ (1/detJ) (sum_k K_ak J_kb g_b)", lambda m, t, g: P(P(C.Conj(Opq("p")), C.JacobianDeterminant(m)), P(D(one, C.JacobianDeterminant(m)),
+                                                                                         S(C.Product(C.Product(X(C.JacobianInverse(m), a, k), X(C.Jacobian(m), k, b)), U("g", (t,), b)), k)))
+        yield "COMPLEX sum_k conj(K_ak J_kb g_a)", lambda m, t, g: S(C.Conj(C.Product(C.Product(X(C.JacobianInverse(m), a, k), X(C.Jacobian(m), k, b)), U("g", (t,), a))), k)
+        yield "COMPLEX sum_k I_ak conj(u_k) v_k", lambda m, t, g: S(C.Product(C.Product(X(C.Identity(t), a, k), C.Conj(U("u", (t,), k))), U("v", (t,), k)), k)
+        yield "COMPLEX conj(f p) (1/f)", lambda m, t, g: P(C.Conj(P(Opq("f"), Opq("p"))), D(one, Opq("f")))
+        yield "COMPLEX (f conj(p)) (1/f) q", lambda m, t, g: P(P(P(Opq("f"), C.Conj(Opq("p"))), D(one, Opq("f"))), Opq("q"))
+        # the delta's other index is BOUND by a component tensor inside the remaining factors (one that component-tensor removal cannot remove: below Re / conj / abs)
+        yield "CAPTURE by a component tensor: sum_k I_ak Re(CT_a(g_a h_k))[0]", lambda m, t, g: S(C.Product(X(C.Identity(t), a, k),
+                                                                                                  X(C.Real(C.ComponentTensor(C.Product(U("g", (t,), a), U("h", (t,), k)), MI((a,)))), 0)), k)
+        yield "CAPTURE by a component tensor: sum_k |CT_a(g_a h_k)[1]| I_ka", lambda m, t, g: S(C.Product(C.Abs(X(C.ComponentTensor(C.Product(U("g", (t,), a), U("h", (t,), k)), MI((a,))), 1)),
+                                                                                               X(C.Identity(t), k, a)), k)
         yield "I_ak u_k", lambda m, t, g: S(C.Product(X(C.Identity(t), a, k), U("u", (t,), k)), k)
         yield "I_ka u_k v_k", lambda m, t, g: S(C.Product(C.Product(X(C.Identity(t), k, a), U("u", (t,), k)), U("v", (t,), k)), k)
         yield "I_0k u_k (fixed)", lambda m, t, g: S(C.Product(X(C.Identity(t), 0, k), U("u", (t,), k)), k)
